@@ -12,29 +12,6 @@ parameter used) or a node for every row of the parameter table.
 namespace MaestroVerif.Expand
 open MaestroVerif.Subst
 
-/-- one iteration of `for step in t_sorted`: the step filed under the `idx`-th name of the flow -/
-def stageIdx (spec : Spec) (ord : List Str → List Str) (flow : Flow) (acc : Except Err SS) (idx : Nat) :
-    Except Err SS :=
-  match acc with
-  | .error e => .error e
-  | .ok s =>
-    match flow.names[idx]? with
-    | none => .ok s
-    | some nm =>
-      if nm == SOURCE then .ok s
-      else match flow.steps.find? (·.1 == nm) with
-        | none => .ok s
-        | some (_, st) => stageStep spec ord s st
-
-/-- the loop of `stage`, returning the staging state it ends in -/
-def stageSS (spec : Spec) (ord : List Str → List Str) : Except Err SS :=
-  match buildFlow spec.steps with
-  | .error e => .error e
-  | .ok flow =>
-    match Dag.topoSort flow.dag with
-    | none => .error .recursion
-    | some order => order.foldl (stageIdx spec ord flow) (.ok (initSS spec.root))
-
 /-- `stage` is `stageSS` followed by taking the graph -/
 theorem stage_eq_stageSS (spec : Spec) (ord : List Str → List Str) :
     stage spec ord = match stageSS spec ord with
